@@ -36,6 +36,8 @@ vars == <<st, ok>>
 
 (* index tables of the path spaces, constant definitions (evaluated once) *)
 TAB == Tup([m \in 1..MaxM |-> Tup([n \in 1..MaxN |-> Tables(m, n)], MaxN)], MaxM)
+(* evaluated at start-up: forces the tables to be computed once and checks them *)
+ASSUME \A m \in 1..MaxM : \A n \in 1..MaxN : (NPaths(m, n) <= 300) => TablesOK(TAB[m][n], m, n)
 
 Rows(m) == {r \in [1..m -> WVals] : LET s == SumInts(r, 1, m) IN s > 0 /\ (RowSum = 0 \/ s = RowSum)}
 
